@@ -198,6 +198,35 @@ def State.getScaledPTO (s : State) (env : Env) (includeMaxAckDelay : Bool) : Int
   let pto := shl64 (if includeMaxAckDelay then env.pto1 else env.pto0) s.ptoCount
   if pto > maxPTODuration ∨ pto ≤ 0 then maxPTODuration else pto
 
+/-- candidate PTO deadline of one space in `getPTOTimeAndSpace`: `lastAckElicitingPacketTime.Add(pto)` if the
+    space exists, has outstanding packets and that time is set -/
+def ptoCandidate (o : Option Space) (pto : Int) : Option Time :=
+  match o with
+  | some sp => if sp.hist.hasOutstandingPackets ∧ sp.lastAETime ≠ 0 then some (sp.lastAETime + pto) else none
+  | none => none
+
+/-- `if pto.IsZero() || (!t.IsZero() && t.Before(pto)) { pto = t; encLevel = l }` -/
+def takeEarlier (r : Time × Level) (t : Time) (l : Level) : Time × Level :=
+  if r.1 = 0 ∨ (t ≠ 0 ∧ t < r.1) then (t, l) else r
+
+/-- `getPTOTimeAndSpace`, after looking at the Initial space -/
+def State.ptoInitial (s : State) (env : Env) : Time × Level :=
+  match ptoCandidate s.initial (s.getScaledPTO env false) with
+  | some t => (t, .initial)
+  | none => (0, .invalid)
+
+/-- … and at the Handshake space -/
+def State.ptoHandshake (s : State) (env : Env) : Time × Level :=
+  match ptoCandidate s.handshake (s.getScaledPTO env false) with
+  | some t => takeEarlier (s.ptoInitial env) t .handshake
+  | none => s.ptoInitial env
+
+/-- … and at the application-data space (only once the handshake is confirmed) -/
+def State.ptoApp (s : State) (env : Env) : Time × Level :=
+  match (if s.handshakeConfirmed then ptoCandidate (some s.app) (s.getScaledPTO env true) else none) with
+  | some t => takeEarlier (s.ptoHandshake env) t .oneRTT
+  | none => s.ptoHandshake env
+
 /-- `getPTOTimeAndSpace` -/
 def State.getPTOTimeAndSpace (s : State) (env : Env) (now : Time) : Time × Level :=
   if !s.handshakeConfirmed ∧ !s.hasOutstandingCrypto then
@@ -205,43 +234,31 @@ def State.getPTOTimeAndSpace (s : State) (env : Env) (now : Time) : Time × Leve
     else
       let t := now + s.getScaledPTO env false
       if s.initial.isSome then (t, .initial) else (t, .handshake)
-  else
-    let r : Time × Level := match s.initial with
-      | some sp =>
-        if sp.hist.hasOutstandingPackets ∧ sp.lastAETime ≠ 0 then (sp.lastAETime + s.getScaledPTO env false, .initial)
-        else (0, .invalid)
-      | none => (0, .invalid)
-    let r : Time × Level := match s.handshake with
-      | some sp =>
-        if sp.hist.hasOutstandingPackets ∧ sp.lastAETime ≠ 0 then
-          let t := sp.lastAETime + s.getScaledPTO env false
-          if r.1 = 0 ∨ (t ≠ 0 ∧ t < r.1) then (t, .handshake) else r
-        else r
-      | none => r
-    if s.handshakeConfirmed ∧ s.app.hist.hasOutstandingPackets ∧ s.app.lastAETime ≠ 0 then
-      let t := s.app.lastAETime + s.getScaledPTO env true
-      if r.1 = 0 ∨ (t ≠ 0 ∧ t < r.1) then (t, .oneRTT) else r
-    else r
+  else s.ptoApp env
+
+/-- `pathProbeLossTime` in `lossDetectionTime`: send time of the first outstanding path probe plus
+    `pathProbePacketLossTimeout`, 0 if there is none -/
+def State.pathProbeLossTime (s : State) : Time :=
+  match s.app.hist.probes with
+  | (_, p) :: _ => p.sendTime + pathProbePacketLossTimeout
+  | [] => 0
 
 /-- `lossDetectionTime` -/
 def State.lossDetectionTime (s : State) (env : Env) (now : Time) : Alarm :=
+  -- cancel the alarm if no packets are outstanding
   if s.peerCompleted ∧ !s.hasOutstandingCrypto ∧ !s.app.hist.hasOutstandingPackets ∧
       !s.app.hist.hasOutstandingPathProbes then {}
+  -- cancel the alarm if amplification limited
   else if s.isAmplificationLimited then {}
-  else
-    let pathProbeLossTime : Time := match s.app.hist.probes with
-      | (_, p) :: _ => p.sendTime + pathProbePacketLossTimeout
-      | [] => 0
-    let (lossTime, lvl) := s.getLossTimeAndSpace
-    if lossTime ≠ 0 ∧ (pathProbeLossTime = 0 ∨ lossTime < pathProbeLossTime) then
-      { time := lossTime, typ := .ack, level := lvl }
-    else
-      let (ptoTime, lvl) := s.getPTOTimeAndSpace env now
-      if ptoTime ≠ 0 ∧ (pathProbeLossTime = 0 ∨ ptoTime < pathProbeLossTime) then
-        { time := ptoTime, typ := .pto, level := lvl }
-      else if pathProbeLossTime ≠ 0 then
-        { time := pathProbeLossTime, typ := .pathProbe, level := .oneRTT }
-      else {}
+  -- early retransmit timer or time loss detection
+  else if s.getLossTimeAndSpace.1 ≠ 0 ∧ (s.pathProbeLossTime = 0 ∨ s.getLossTimeAndSpace.1 < s.pathProbeLossTime) then
+    { time := s.getLossTimeAndSpace.1, typ := .ack, level := s.getLossTimeAndSpace.2 }
+  else if (s.getPTOTimeAndSpace env now).1 ≠ 0 ∧
+      (s.pathProbeLossTime = 0 ∨ (s.getPTOTimeAndSpace env now).1 < s.pathProbeLossTime) then
+    { time := (s.getPTOTimeAndSpace env now).1, typ := .pto, level := (s.getPTOTimeAndSpace env now).2 }
+  else if s.pathProbeLossTime ≠ 0 then
+    { time := s.pathProbeLossTime, typ := .pathProbe, level := .oneRTT }
+  else {}
 
 /-- `setLossDetectionTimer` -/
 def State.setTimer (s : State) (env : Env) (now : Time) : State :=
